@@ -271,6 +271,26 @@ def check(model: Model, run: Run) -> None:
     )
     _r11_member_lists(model, run)
 
+    # ------------------------------------------------------------------ R12 one member per attribute name
+    run.rule(
+        'C13.R12',
+        'no duplicate key in the "attribute" object of an UPDATE event: two attribute codes that AttributeCollection.representation '
+        'renders under the same name (AGGREGATOR and AS4_AGGREGATOR are both "aggregator") cannot both be in a decoded collection - '
+        'AttributeCollection.unpack removes one of them when both are present',
+        floor=1,
+    )
+    _r12_attribute_names(model, run, folder)
+
+    # ------------------------------------------------------------------ R13 half sent / half received data dies with the process
+    run.rule(
+        'C13.R13',
+        'one well-formed record at a time, also across a respawn: every per-process buffer of Processes (a dict keyed by process '
+        'name holding text, bytes, or a queue of them) is dropped by _terminate or started afresh by _start - what is left in it is '
+        'the tail of a half sent record, or the head of a half received command, of the process that died',
+        floor=2,
+    )
+    _r13_process_buffers(model, run)
+
     # ------------------------------------------------------------------ R6 every event kind has an emitter
     run.rule('C13.R6', 'every message kind a peer can trigger has an emitter: each registered message type has a @register_process entry and each encoder class defines every method Processes calls on it', floor=20)
     _r6_emitters(model, run, folder)
@@ -717,3 +737,93 @@ def _lands_in_object(model: Model, f: FuncInfo, call: ast.Call) -> bool:
                     if t.endswith('['):
                         return False
     return False
+
+
+def _r12_attribute_names(model: Model, run: Run, folder: Folder) -> None:
+    AC = 'exabgp.bgp.message.update.attribute.collection.AttributeCollection'
+    ci = model.cls(AC)
+    table = ci.assigns.get('representation')
+    if not isinstance(table, ast.Dict):
+        run.cannot('AttributeCollection.representation is not a dict literal')
+        return
+    internal = folder.class_attr(AC, 'INTERNAL')
+    internal = set(internal) if isinstance(internal, (tuple, list)) else set()
+    by_name: dict[str, list[tuple[int, str]]] = {}
+    for k, v in zip(table.keys, table.values):
+        code = folder.fold(k, ci.module, ci)
+        if not isinstance(code, int) or not isinstance(v, ast.Tuple) or len(v.elts) < 3:
+            run.cannot('representation entry not understood: %s' % norm(k))
+            continue
+        name = folder.fold(v.elts[2], ci.module, ci)
+        if code in internal or not isinstance(name, str):
+            continue
+        # attributes that are never generated (internal markers) do not reach the object
+        by_name.setdefault(name, []).append((code, (dotted(k) or norm(k)).rsplit('.', 1)[-1]))
+    nogen = set()
+    for qn, c2 in model.classes.items():
+        if model.is_subclass(qn, 'exabgp.bgp.message.update.attribute.attribute.Attribute') and folder.class_attr(qn, 'NO_GENERATION') is True:
+            i = folder.class_attr(qn, 'ID')
+            if isinstance(i, int):
+                nogen.add(i)
+    un = model.func(AC + '.unpack')
+    run.analysed(un)
+    n = 0
+    for name, codes in sorted(by_name.items()):
+        live = [(c, nm) for c, nm in codes if c not in nogen]
+        if len(live) < 2:
+            continue
+        n += 1
+        names = {nm for _, nm in live}
+        merged = None
+        for st in walk_no_nested(un.node):
+            if not isinstance(st, ast.If):
+                continue
+            tested = {(dotted(c.left) or '').rsplit('.', 1)[-1] for c in ast.walk(st.test) if isinstance(c, ast.Compare) and isinstance(c.ops[0], ast.In)}
+            if not names <= tested:
+                continue
+            # what the branch does: a removal of one of the codes, directly or in a method of the collection it calls
+            bodies = list(st.body)
+            for c in [x for b in st.body for x in walk_no_nested(b) if isinstance(x, ast.Call)]:
+                for q in model.callees(un.module, c):
+                    if q.startswith(AC + '.') and q in model.funcs:
+                        run.analysed(model.funcs[q])
+                        bodies += model.funcs[q].node.body
+            for b in bodies:
+                for c in walk_no_nested(b):
+                    if isinstance(c, ast.Call) and isinstance(c.func, ast.Attribute) and c.func.attr in ('remove', 'pop', '__delitem__') and c.args and (dotted(c.args[0]) or '').rsplit('.', 1)[-1] in names:
+                        merged = c
+        run.check(merged is not None, AC, 'attributes %s are both rendered as "%s": %s' % (sorted(names), name, 'unpack leaves one of them' if merged is not None else 'nothing removes one when both are received'), ci.loc(), 'an UPDATE carrying both (what RFC 6793 prescribes through a 2-byte speaker) renders "%s": ..., "%s": ... in one object: a duplicate key, the consumer keeps one of the two values' % (name, name))
+    if n == 0:
+        run.cannot('no two attribute codes share a name in AttributeCollection.representation any more: rule without an instance')
+
+
+def _r13_process_buffers(model: Model, run: Run) -> None:
+    ci = model.cls(PROCESSES)
+    # attributes declared  self.X: dict[str, <str | bytes | deque[...] | list[...]>] = {}  anywhere in the class
+    buffers: dict[str, ast.AST] = {}
+    for m in ci.methods.values():
+        for st in walk_no_nested(m.node):
+            if isinstance(st, ast.AnnAssign) and isinstance(st.target, ast.Attribute) and dotted(st.target.value) == 'self':
+                ann = norm(st.annotation).replace(' ', '')
+                if ann.startswith('dict[str,') and any(ann[len('dict[str,'):].startswith(k) for k in ('str', 'bytes', 'collections.deque', 'deque', 'list', 'bytearray')):
+                    buffers[st.target.attr] = st
+    if len(buffers) < 2:
+        run.cannot('fewer than 2 per-process buffers declared in Processes (%s)' % sorted(buffers))
+        return
+    term = model.func(PROCESSES + '._terminate')
+    start = model.func(PROCESSES + '._start')
+    run.analysed(term)
+    run.analysed(start)
+    pname = term.node.args.args[1].arg if len(term.node.args.args) > 1 else '?'
+    for attr, decl in sorted(buffers.items()):
+        dropped = None
+        for n in walk_no_nested(term.node):
+            if isinstance(n, ast.Call) and isinstance(n.func, ast.Attribute) and n.func.attr == 'pop' and dotted(n.func.value) == 'self.' + attr and n.args and norm(n.args[0]) == pname:
+                dropped = n
+            if isinstance(n, ast.Delete) and any(isinstance(t, ast.Subscript) and dotted(t.value) == 'self.' + attr and norm(t.slice) == pname for t in n.targets):
+                dropped = n
+        sp = start.node.args.args[1].arg if len(start.node.args.args) > 1 else '?'
+        for n in walk_no_nested(start.node):
+            if isinstance(n, ast.Assign) and any(isinstance(t, ast.Subscript) and dotted(t.value) == 'self.' + attr and norm(t.slice) == sp for t in n.targets) and not flat_guards(start.node, n):
+                dropped = n
+        run.check(dropped is not None, PROCESSES, 'self.%s[<process>] does not outlive the process' % attr, ci.loc(), 'neither _terminate nor _start drops it: after a respawn the new process of that name is sent the unwritten tail of the record its predecessor was being sent (or the daemon completes a command with the first bytes the new process writes)')
